@@ -6,6 +6,7 @@ import (
 	"errors"
 	"fmt"
 	"net/http"
+	"strings"
 	"sync"
 
 	connect "github.com/bufbuild/connect-go"
@@ -143,6 +144,9 @@ func classOfPanic(v any) string {
 		if x.Error() == "verif panic error" {
 			return "error"
 		}
+		if strings.HasPrefix(x.Error(), "verif wrapped:") {
+			return "wrapabort"
+		}
 		return "nil" // *runtime.PanicNilError is an error too (Go >= 1.21 semantics)
 	case string:
 		return "string"
@@ -162,6 +166,8 @@ func panicValue(class string) any {
 		return panicStruct{N: 7}
 	case "abort":
 		return http.ErrAbortHandler
+	case "wrapabort": // not the sentinel itself: must be recovered like any other value
+		return fmt.Errorf("verif wrapped: %w", http.ErrAbortHandler)
 	}
 	return nil
 }
